@@ -162,39 +162,47 @@ Record mstate := mkM {
   m_outs : list outcome;        (* scripted outcomes of abstract Negotiate calls *)
   m_choices : list bytes;       (* observed map-iteration choices (name spaces) *)
   m_fv : option bytes;          (* the variable captured by the StartTLS feature value: ServerName of its config, None = nil *)
+  m_adv : list bytes;           (* s.features (keys): what Session.Feature reports as advertised for the current stream *)
   m_tr : list event             (* events so far, oldest first *) }.
 
 Definition emit (e : event) (m : mstate) : mstate :=
   mkM (m_bits m) (m_negd m) (m_cache m) (m_total m) (m_lreq m) (m_in m) (m_tlsin m) (m_tls m) (m_hs m)
-      (m_outs m) (m_choices m) (m_fv m) (m_tr m ++ [e]).
+      (m_outs m) (m_choices m) (m_fv m) (m_adv m) (m_tr m ++ [e]).
 Definition set_bits (b : N) (m : mstate) : mstate :=
   mkM b (m_negd m) (m_cache m) (m_total m) (m_lreq m) (m_in m) (m_tlsin m) (m_tls m) (m_hs m)
-      (m_outs m) (m_choices m) (m_fv m) (m_tr m).
+      (m_outs m) (m_choices m) (m_fv m) (m_adv m) (m_tr m).
 Definition set_negd (l : list bytes) (m : mstate) : mstate :=
   mkM (m_bits m) l (m_cache m) (m_total m) (m_lreq m) (m_in m) (m_tlsin m) (m_tls m) (m_hs m)
-      (m_outs m) (m_choices m) (m_fv m) (m_tr m).
+      (m_outs m) (m_choices m) (m_fv m) (m_adv m) (m_tr m).
 Definition set_list (c : cache) (t : nat) (r : bool) (m : mstate) : mstate :=
   mkM (m_bits m) (m_negd m) c t r (m_in m) (m_tlsin m) (m_tls m) (m_hs m)
-      (m_outs m) (m_choices m) (m_fv m) (m_tr m).
+      (m_outs m) (m_choices m) (m_fv m) (m_adv m) (m_tr m).
 Definition set_in (i : list pitem) (m : mstate) : mstate :=
   mkM (m_bits m) (m_negd m) (m_cache m) (m_total m) (m_lreq m) i (m_tlsin m) (m_tls m) (m_hs m)
-      (m_outs m) (m_choices m) (m_fv m) (m_tr m).
+      (m_outs m) (m_choices m) (m_fv m) (m_adv m) (m_tr m).
 Definition set_outs (o : list outcome) (m : mstate) : mstate :=
   mkM (m_bits m) (m_negd m) (m_cache m) (m_total m) (m_lreq m) (m_in m) (m_tlsin m) (m_tls m) (m_hs m)
-      o (m_choices m) (m_fv m) (m_tr m).
+      o (m_choices m) (m_fv m) (m_adv m) (m_tr m).
 Definition set_choices (c : list bytes) (m : mstate) : mstate :=
   mkM (m_bits m) (m_negd m) (m_cache m) (m_total m) (m_lreq m) (m_in m) (m_tlsin m) (m_tls m) (m_hs m)
-      (m_outs m) c (m_fv m) (m_tr m).
+      (m_outs m) c (m_fv m) (m_adv m) (m_tr m).
+Definition set_adv (a : list bytes) (m : mstate) : mstate :=
+  mkM (m_bits m) (m_negd m) (m_cache m) (m_total m) (m_lreq m) (m_in m) (m_tlsin m) (m_tls m) (m_hs m)
+      (m_outs m) (m_choices m) (m_fv m) a (m_tr m).
+(* readStreamFeatures: `s.features[tok.Name.Space] = nil` for every child element, supported or not *)
+Definition add_adv (sp : bytes) (m : mstate) : mstate := set_adv (sp :: m_adv m) m.
+(* negotiateSession, `if rw != nil`: s.features and s.negotiated are emptied (and the decoder renewed) *)
+Definition reset_stream (m : mstate) : mstate := set_adv [] (set_negd [] m).
 Definition set_hs (h : bool) (m : mstate) : mstate :=
   mkM (m_bits m) (m_negd m) (m_cache m) (m_total m) (m_lreq m) (m_in m) (m_tlsin m) (m_tls m) h
-      (m_outs m) (m_choices m) (m_fv m) (m_tr m).
+      (m_outs m) (m_choices m) (m_fv m) (m_adv m) (m_tr m).
 (* tls.Client around the connection: whatever clear text the peer had already
    sent is gone with the old decoder (session.go, rw != nil branch: the decoder
    is recreated on the new layer); from now on input comes from the TLS-layer
    script *)
 Definition switch_layer (m : mstate) : mstate :=
   mkM (m_bits m) (m_negd m) (m_cache m) (m_total m) (m_lreq m) (m_tlsin m) [] true true
-      (m_outs m) (m_choices m) (m_fv m) (m_tr m).
+      (m_outs m) (m_choices m) (m_fv m) (m_adv m) (m_tr m).
 
 Inductive eclass :=
 | EFeature    (* the error an abstract feature's callback returned *)
@@ -244,12 +252,13 @@ Fixpoint read_children (fs : list feature) (st : N) (cs : list fchild) (m : msta
   | [] => (m, Good (ca, tot, lr))
   | FCText :: _ => (m, Bad EOther)                     (* stream.RestrictedXML *)
   | FC sp lo req perr :: rest =>
+      let m0 := add_adv sp m in                         (* recorded before Parse runs *)
       match get_feature (sp, lo) fs with
       | Some f =>
-          let m1 := emit (EParse f) m in
+          let m1 := emit (EParse f) m0 in
           if perr then (m1, Bad EFeature)
           else read_children fs st rest m1 (cache_step st f req ca) (S tot) (lr || req)  (* sf.req before the mask test *)
-      | None => read_children fs st rest m ca (S tot) lr
+      | None => read_children fs st rest m0 ca (S tot) lr
       end
   end.
 
@@ -450,12 +459,12 @@ Fixpoint session_loop (fuel : nat) (tee : bool) (c : config) (m : mstate) (data 
   | S k =>
       if has (m_bits m) st_Ready then mkR ROk (m_bits m) m
       else if tee && negb istee then
-        session_loop k tee c (set_negd [] m) (Some (ns_of data)) true       (* s.Conn() is a teeConn from now on *)
+        session_loop k tee c (reset_stream m) (Some (ns_of data)) true      (* s.Conn() is a teeConn from now on *)
       else
         match negotiator_body c m (ns_of data) with
         | (m1, Good (mask, restart, ns1)) =>
             (* a feature that restarts the stream returns a connection that is not a teeConn *)
-            let m2 := if restart then set_negd [] m1 else m1 in
+            let m2 := if restart then reset_stream m1 else m1 in
             session_loop k tee c (set_bits (N.lor (m_bits m2) mask) m2) (Some ns1) (if restart then false else istee)
         | (m1, Bad e) => mkR (RErr e) (m_bits m1) m1
         | (m1, Stuck) => mkR RStuck (m_bits m1) m1
@@ -463,7 +472,7 @@ Fixpoint session_loop (fuel : nat) (tee : bool) (c : config) (m : mstate) (data 
   end.
 
 Definition init_state (fv : option bytes) (bits : N) (clear tls : list pitem) (outs : list outcome) (choices : list bytes) : mstate :=
-  mkM bits [] [] 0 false clear tls false false outs choices fv [].
+  mkM bits [] [] 0 false clear tls false false outs choices fv [] [].
 
 Definition fuel_for (clear tls : list pitem) : nat := 2 * (length clear + length tls) + 4.
 
@@ -503,6 +512,12 @@ Definition server_names (tr : list event) : list bytes :=
 
 Definition handshakes (tr : list event) : list bool :=
   flat_map (fun e => match e with EHandshake b => [b] | _ => [] end) tr.
+
+(* the name spaces advertised by the features lists among some items *)
+Definition child_spaces (cs : list fchild) : list bytes :=
+  flat_map (fun ch => match ch with FC sp _ _ _ => [sp] | FCText => [] end) cs.
+Definition adv_spaces (its : list pitem) : list bytes :=
+  flat_map (fun it => match i_body it with PFeatures cs => child_spaces cs | _ => [] end) its.
 
 (* the state bits the code had whenever it looked at input or ran a callback *)
 Definition bits_seen (tr : list event) : list N :=
@@ -620,7 +635,9 @@ Record c2case := mkC2 {
   y_cb : list cb;              (* Parse / Negotiate callbacks in order *)
   y_sni : list bytes;          (* server names of the ClientHellos the peer saw *)
   y_hs : list bool;            (* outcome of each handshake *)
-  y_tlsread : nat }.           (* TLS-layer script items the peer got to send *)
+  y_tlsread : nat;             (* TLS-layer script items the peer got to send *)
+  q_univ : list bytes;         (* name spaces for which Session.Feature was asked after NewSession returned *)
+  y_feats : list bytes }.      (* ... those it reported as advertised *)
 
 Definition c2_run (k : c2case) : result :=
   run (q_tee k) (q_cfg k) (q_fv k) (q_bits k) (q_in k) (q_tls k) (q_outs k) (q_choices k).
@@ -640,7 +657,8 @@ Definition c2_ok (k : c2case) : bool :=
   list_eqb cb_eqb (callbacks tr) (y_cb k) &&
   list_eqb bytes_eqb (server_names tr) (y_sni k) &&
   list_eqb Bool.eqb (handshakes tr) (y_hs k) &&
-  Nat.eqb (length (ins_of (after_switch tr))) (y_tlsread k).
+  Nat.eqb (length (ins_of (after_switch tr))) (y_tlsread k) &&
+  forallb (fun ns => Bool.eqb (mem ns (m_adv (r_state r))) (mem ns (y_feats k))) (q_univ k).
 
 Fixpoint failing {A} (ok : A -> bool) (i : nat) (l : list A) : list nat :=
   match l with
